@@ -6,7 +6,7 @@ From Coq Require Import Reals Lra Lia Arith List FunctionalExtensionality.
 From SpdVerif Require Import Base.Rx Model.SpectrumSetup Gen.Spectrum Model.Spectrum Proofs.C07_scaling Proofs.C07_defined.
 From SpdVerif Require Import Model.FinSum Model.Hom Model.Hom2 Model.Schmidt Proofs.FinSum_lemmas Proofs.Cx_lemmas Proofs.C09_range
   Proofs.CMat Proofs.C10_sums Proofs.C10_svd Proofs.C10_expand Proofs.C10_scale Gen.HomSrc Proofs.C09_src Proofs.C10_src
-  Gen.SchmidtSrc Proofs.C11_svd Proofs.C11_families.
+  Proofs.C11_svd Proofs.C11_families.
 Local Open Scope R_scope.
 
 (* ---- the generated amplitude as a two-argument complex function, and its scaling law *)
